@@ -293,6 +293,7 @@ struct Tally {
     same_header: usize,
     void: usize,
     noop: usize,
+    stored_target: usize,
     classes: Vec<&'static str>,
 }
 
@@ -403,6 +404,24 @@ fn check_mutations_flavor<E: Flavor>(c: &Mutations) -> CaseResult {
                 tally.classes.push(m.class());
             }
         }
+        // The same tampering applied to an operation that is already stored (its id is known to
+        // the store, so the "already exists" shortcut must not swallow the rejection).
+        if t > 0 {
+            let stored = &chain[t - 1];
+            for (i, m) in c.fields.iter().take(c.fields.len() / 2).enumerate() {
+                let Some(mutant) = m.apply(&stored.fields, &stored.sig, stored.body.as_deref()) else {
+                    tally.noop += 1;
+                    continue;
+                };
+                let header: Header<E> = mutant.fields.header::<E>(mutant.sig.as_ref());
+                let op = operation(header, mutant.body.as_deref());
+                let before = tally.rejected;
+                expect_rejected::<E>(&store, &format!("field mutation #{i} {m:?} of the stored operation seq {}", stored.fields.seq), &op, &home, &mut tally).await?;
+                if tally.rejected > before {
+                    tally.stored_target += 1;
+                }
+            }
+        }
         let wire = target.op.header.to_bytes();
         for (i, m) in c.bytes.iter().enumerate() {
             let Some(bytes) = m.apply(&wire) else {
@@ -444,6 +463,7 @@ fn check_mutations_flavor<E: Flavor>(c: &Mutations) -> CaseResult {
             .label_if(tally.void > 0, "mutant_still_valid_by_reference")
             .label_if(tally.noop > 0, "noop_mutation")
             .label_if(t > 0, "prefilled_prefix")
+            .label_if(tally.stored_target > 0, "stored_operation_mutants_rejected")
             .label_if(c.node_flavor, "node_basic_flavor")
             .label_if(tally.rejected >= 10, "ten_or_more_rejected_mutants");
         tally.classes.sort();
@@ -506,7 +526,7 @@ pub fn run(mut ctx: Ctx) -> ! {
     ctx.run_prop(
         Part::new(
             "single_mutations",
-            "valid chain of 1..6 operations (custom struct or Node Basic extensions), prefix pre-filled through ingest_operation, then 9..18 field-level and 6..12 byte-level single mutations of the next operation; each must be rejected with the store unchanged; non-trivial = at least one mutant reached ingest_operation (decoded, not void) and was checked",
+            "valid chain of 1..6 operations (custom struct or Node Basic extensions), prefix pre-filled through ingest_operation, then 9..18 field-level and 6..12 byte-level single mutations of the next operation plus field-level mutations of the last stored operation; each must be rejected with the store unchanged; non-trivial = at least one mutant reached ingest_operation (decoded, not void) and was checked",
             400,
             12_000,
         )
